@@ -94,7 +94,7 @@ CHECKS.update({
         design="§6 C07",
     ),
     "C16": dict(
-        text="Lean 4 theorems over the model of the large-model serializer (constants appended behind the flatbuffer, 16-byte aligned): for every buffer list, offsets are aligned, inside the file, pairwise disjoint and in order, every external buffer's (offset,size) fields point at exactly its bytes, small/empty buffers stay inline (C16.layout, C16.fields_point_to_data). Executed: quantize() forced through the large-model path (hook: threshold override) on generated models: raw offset/size fields parsed independently, offsets compared with the model, both serializations canonically equal and identical interpreter outputs.",
+        text="Lean 4 theorems over the model of the large-model serializer (constants appended behind the flatbuffer, 16-byte aligned): for every buffer list, offsets are aligned, inside the file, pairwise disjoint and in order, every external buffer's (offset,size) fields point at exactly its bytes, small/empty buffers stay inline (C16.layout, C16.fields_point_to_data); C16b lifts the adjacent statement to ANY two external constants by induction over their distance (C16b.pairwise_disjoint), shows the final flatbuffer is a byte-for-byte prefix of the output (C16b.flatbuffer_prefix) and that the writer hypothesis is satisfiable (C16b.toyFb_lenInvariant). Executed: quantize() forced through the large-model path (hook: threshold override) on generated models: raw offset/size fields parsed independently, offsets compared with the model, both serializations canonically equal and identical interpreter outputs.",
         note="the flatbuffers writer and the 2 GiB threshold itself are external; the hook only lowers the threshold",
         design="§6 C16",
     ),
